@@ -66,6 +66,7 @@ class Recorded:
         self.headers = {k.lower(): v for k, v in request.headers.items()}
         self.body = body
         self.t = t
+        self.timeout = dict(request.extensions.get("timeout") or {})
 
     def json(self):
         import json
